@@ -15,9 +15,10 @@ LEVEL_TEXT = ("PosePath3D.align (all 8 flag / n cases), align_origin, scale and 
               "(p -> s R p + t, R_p -> R R_p; scale-only: p -> s p and nothing else), origin mode: T = ref_0 est_0^-1 applied "
               "to every pose (first pose lands on ref_0: lemma), reference untouched.  'RMSE never worse / optimal in its "
               "class / re-alignment is the identity' follow from Umeyama's theorem (cited) and are bounded; the alignment "
-              "matrix recorded by ape()/rpe() is bounded.")
+              "matrix recorded by ape()/rpe() is verified to be the composition of exactly the applied transformations "
+              "(scale-only: s I; similarity: [s r | t]; origin alignment multiplied from the left) for 8 option combinations.")
 LEVEL_NOTE = ("floats as reals; umeyama_alignment cut by its contract (C03); verified for matrix-built trajectories; "
-              "Umeyama's theorem cited; ape()/rpe() recording: bounded")
+              "Umeyama's theorem cited; ape()/rpe(): wiring proof with recording stand-ins, end-to-end recording also bounded")
 SIDECARS = ["contracts.lie_algebra", "contracts.lemmas_lie", "contracts.geometry", "contracts.filters", "contracts.umeyama",
             "contracts.trajectory", "contracts.lemmas_traj",
             "contracts.metrics", "contracts.overwrite", "contracts.ape_rpe_cli"]
